@@ -427,6 +427,8 @@ def check_program(prog: Program, mode: str) -> List[str]:
             if kind == "label":
                 if a not in prog.labels:
                     out.append("line %d: undefined label %r" % (ins.line, a))
+                elif v < 4 and ins.op != "callsub" and prog.labels[a] <= ins.idx:
+                    out.append("line %d: backward branch to %s needs version 4 (program is %d)" % (ins.line, a, v))
             elif kind == "labels":
                 for l in a:
                     if l not in prog.labels:
